@@ -18,3 +18,16 @@ def objective_beyond_backend_integer_range(v):
     opts = (v.get('case') or {}).get('opts') or {}
     big = any(isinstance(x, int) and x >= 10 ** 8 for c in opts.get('crits', []) for x in (c[2] or []))
     return big and v.get('monitor', '').split('_after_')[0] in ('status_vs_reference', 'no_exception', 'pin_probe', 'matching_iff_optimal')
+
+
+@classifier
+def quota_beyond_backend_exact_range_as_coefficient(v):
+    """KF2: a quota of 2**53 or more is used as a coefficient of the closure (-pc) or
+    stability (-stab) rows; in double arithmetic `1 + q*c <= q` holds for c = 0, so the
+    back end accepts points that violate the row.  Keyed on the instance (a quota >= 2**53)
+    and the option set (-pc or -stab), never on a case hash."""
+    case = v.get('case') or {}
+    spec, opts = case.get('spec') or {}, case.get('opts') or {}
+    big = any(isinstance(x, int) and x >= 2 ** 53 for k in ('puq', 'plq', 'luq', 'llq', 'lt') for x in (spec.get(k) or []))
+    return bool(big and (opts.get('pc') or opts.get('stab')) and
+                v.get('monitor', '').split('_after_')[0] in ('valid_matching', 'pin_probe'))
